@@ -105,6 +105,10 @@ def decoding_agrees(ctx):
         jobs = [{"msgs": [{"exp": exp, "buf": m} for m in hist[i:i + 2]], "want_json": True} for i in range(0, len(hist), 2)]
         for _ in range(300 if thorough else 60):
             jobs.append({"msgs": [{"exp": exp, "buf": m} for m in g.history(4)], "want_json": True})
+        if proto == "ipfix":
+            # the exporter first describes every element truthfully (RFC 5610 type information records), then sends them all
+            jobs.append({"msgs": [{"exp": exp, "buf": m} for m in g.type_information() + g.per_element("own") + g.per_element("reduced")],
+                         "want_json": True})
         a = flowjobs.run_jobs(ctx, codec.driver(ctx, proto), codec.P[proto]["jobs"], jobs, tag="c20a_" + proto)
         b = flowjobs.run_jobs(ctx, codec.driver(ctx, proto), codec.P[proto]["jobs"], jobs, env={"VERIF_ELEMENTS_DIR": scripts}, tag="c20b_" + proto)
         nrec = 0
@@ -129,3 +133,26 @@ def decoding_agrees(ctx):
                     break
         ctx.traces_validated += len(jobs)
         ctx.extra.setdefault("decoded_both_ways", {})[proto] = {"histories": len(jobs), "records": nrec, "elements": len(ids)}
+        # '... and matches the registry snapshot the decoders are validated against': what the real decoder made of every
+        # element (built-in table) is what the reference collector, typed by the snapshot (spec/InfoModelData.tla), computes
+        rows, idx = [], []
+        for ji, (job, ra) in enumerate(zip(jobs, a)):
+            if ra.get("skipped") or "killed" in ra:
+                continue
+            rows.append({"ev": "reset"})
+            idx.append((ji, -1))
+            for mi, (m, x) in enumerate(zip(job["msgs"], ra["res"])):
+                if x["st"] == "panic":
+                    break
+                rows.append({"ev": "msg", "exp": m["exp"], "buf": m["buf"], "res": {"st": x["st"], "hdr": x.get("hdr") or [], "recs": x["recs"]}})
+                idx.append((ji, mi))
+        mod = codec.P[proto]["trace"]
+        ok, bad = flowjobs.validate_trace(ctx, mod, mod + ".cfg", rows, files={"ext.ndjson": ""})
+        if not ok:
+            ji, mi = idx[bad]
+            ctx.violation("%s: the real decoder's result for message %d of a history is not what the registry snapshot's types give "
+                          "(reference collector spec/%s.tla); real result: st=%s, %d records"
+                          % (name, mi, mod, rows[bad]["res"]["st"], len(rows[bad]["res"]["recs"])),
+                          {"history": jobs[ji]["msgs"][:mi + 1], "real": rows[bad]["res"]}, key=proto + ":decode-vs-snapshot")
+        else:
+            ctx.traces_validated += len(jobs)
